@@ -69,4 +69,4 @@ chk("C19", "runtime monitor: anchoring oracle on decorator snapshots (reference 
 chk("C20", "child-process supervision of the real service under a hostile corpus (status / shape oracle per request class, liveness via waitpid + schema endpoint, CPU-time criterion)",
     "Valid, constraint-catalogue, malformed, mutated, extreme and raw-TCP-fault requests, shuffled, against one process per batch; every answer is classified against its class; the child must stay alive and keep serving the schema endpoint; "
     "a request left without an answer by a live, idle process is decided from the goroutine dump the runtime prints on SIGQUIT (handler parked, nothing of the service running).",
-    BASE + " Level coefficients between 1e-16 and 1e-3 are not sent (finite but astronomically long series: the verdict would depend on a time budget).", "DESIGN.md 4/C20")
+    BASE + " Level coefficients in (0, 1e-3) are not sent, except ones too small to change the level at all (finite but astronomically long series: the verdict would depend on a time budget).", "DESIGN.md 4/C20")
